@@ -54,6 +54,47 @@ class CallModel:
                     self.input_alias.add(n)
         self.step_calls = [c for c in ast.walk(fn) if isinstance(c, ast.Call) and dotted(c.func) == "self.step"]
 
+    def step_arg(self, call):
+        """the step expression handed to ``self.step`` by ``call``; a local computed just before the call (`h_retry = <expr>` ...
+        `self.step(..., h_retry)`) is replaced by its defining expression when the returned-step variable is not rebound in between
+        (so that the expression means the same at the call as where it was computed)"""
+        arg = call.args[4] if len(call.args) > 4 else next((k.value for k in call.keywords if k.arg == "timestep"), None)
+        if not isinstance(arg, ast.Name) or arg.id in self.input_alias or arg.id == self.ret_var:
+            return arg
+        from .imodel import path_key
+        from .front import ancestors
+
+        def stmt_of(n):
+            while not isinstance(n, ast.stmt):
+                n = n._parent
+            return n
+
+        def writes(st, name):
+            tg = st.targets if isinstance(st, ast.Assign) else ([st.target] if isinstance(st, (ast.AugAssign, ast.For)) else [])
+            return any(isinstance(x, ast.Name) and x.id == name for t in tg for x in ast.walk(t))
+        use = stmt_of(call)
+        defs = [st for st in walk_no_nested(self.fn) if isinstance(st, ast.Assign) and writes(st, arg.id)]
+        if len(defs) != 1 or not (len(defs[0].targets) == 1 and isinstance(defs[0].targets[0], ast.Name)):
+            return arg
+        d = defs[0]
+        kd, ku = path_key(d, self.fn), path_key(use, self.fn)
+        loops_d = [a for a in ancestors(d) if isinstance(a, (ast.For, ast.While))]
+        loops_u = [a for a in ancestors(use) if isinstance(a, (ast.For, ast.While))]
+        if not (kd < ku) or loops_d != loops_u:
+            return arg
+        for st in walk_no_nested(self.fn):
+            if st is use or st is d or not isinstance(st, (ast.Assign, ast.AugAssign)) or not writes(st, self.ret_var):
+                continue
+            if kd < path_key(st, self.fn) < ku:
+                # a step assignment in a single-statement try body whose handler holds the use: the handler runs only when that
+                # statement did not complete, so the variable still has the value it had at the definition
+                tr = next((a for a in ancestors(use) if isinstance(a, ast.Try)), None)
+                in_handler = tr is not None and any(use is x or any(use is y for y in ast.walk(x)) for h in tr.handlers for x in h.body)
+                if in_handler and len(tr.body) == 1 and tr.body[0] is st and isinstance(st, ast.Assign) and isinstance(st.value, ast.Call):
+                    continue
+                return arg
+        return d.value
+
 
 class CallClient(Client):
     def __init__(self, model):
@@ -102,7 +143,7 @@ class CallClient(Client):
             tg = st.targets[0]
             tnames = [e.id for e in tg.elts if isinstance(e, ast.Name)] if isinstance(tg, ast.Tuple) else ([tg.id] if isinstance(tg, ast.Name) else [])
             if sc is not None:
-                arg = sc.args[4] if len(sc.args) > 4 else next((k.value for k in sc.keywords if k.arg == "timestep"), None)
+                arg = self.m.step_arg(sc)
                 ap = self.arg_prov(arg, prov) if arg is not None else "CONTROLLER"
                 np_ = ap if self.m.ret_var in tnames else prov
                 outs = []
